@@ -58,6 +58,7 @@ func runReplicaHistory(seed uint64, idx int) (in sx.V, out sx.V, tags []string) 
 	s.L.SetSlots(sets)
 	w := &world{s: s, cfg: cfg, answered: map[*stepper.Peer]int{}, shaken: map[*stepper.Peer]bool{}, closedC: map[int]bool{}, closedS: map[*stepper.Peer]bool{},
 		reqSeq: map[int]int{}, tagset: map[string]bool{}}
+	lastWorld = w
 	defer w.s.Close()
 	nc := r.Range(1, 3)
 	for i := 0; i < nc; i++ {
@@ -133,10 +134,10 @@ func suiteReplicas(c *Ctx) {
 	for i := 0; i < n; i++ {
 		var in, out sx.V
 		var tags []string
-		o := Safe(func() sx.V { in, out, tags = runReplicaHistory(c.Seed, i); return out })
+		in, out, tags = guarded(func() (sx.V, sx.V, []string) { return runReplicaHistory(c.Seed, i) })
 		if in == nil {
-			in = sx.L()
+			break
 		}
-		c.Emit("loopspec", in, o, tags...)
+		c.Emit("loopspec", in, out, tags...)
 	}
 }
